@@ -347,7 +347,16 @@ class SimSubprocess:
     def run(self, args, input=None, stdin=None, stdout=None, stderr=None,
             capture_output=False, timeout=None, check=False, **kw):
         if capture_output:
+            if stdout is not None or stderr is not None:
+                raise ValueError("stdout and stderr arguments may not be "
+                                 "used with capture_output.")
             stdout = stderr = PIPE
+        if input is not None:
+            # as the real one: the text goes through a pipe of its own
+            if stdin is not None:
+                raise ValueError("stdin and input arguments may not both be "
+                                 "used.")
+            stdin = PIPE
         p = self.Popen(args, stdin=stdin, stdout=stdout, stderr=stderr, **kw)
         out, err = p.communicate(input)
         if not (capture_output or stdout == PIPE):
